@@ -198,7 +198,9 @@ def gzProp (ts : List GzTruth) (obs : Toks) : String :=
     match chk 0 ts ms with
     | some (i, why) =>
       -- excused only when a member up to and including the failing one has a non-zero FLG byte
-      if (ts.take (i+1)).any (·.flg != 0) then s!"KNOWN gzip-flags-bit-order member {i}: {why}"
+      -- … i.e. a FLG byte that the decoder's reversed bit order reads differently: FTEXT/FHCRC/FEXTRA set, or exactly one of
+      -- FNAME/FCOMMENT (0x18, both, reads the same either way and is checked strictly)
+      if (ts.take (i+1)).any (fun t => t.flg % 8 != 0 || t.flg.testBit 3 != t.flg.testBit 4) then s!"KNOWN gzip-flags-bit-order member {i}: {why}"
       else s!"PROPFAIL gzip member {i}: {why}"
     | none =>
       if e != "ok" then "PROPFAIL gzip: decode error on an intact file"
@@ -536,6 +538,7 @@ structure ZipTruth where
   ext : String
   utf8 : String
   clen : Nat
+  xraw : String
 
 /-- the MS-DOS time/date words and everything fq derives from them (zip.go:131-186), against the words the
     generator computed from the modification time it handed to the writer; sub-fields are split here -/
@@ -556,14 +559,16 @@ def zipDateCheck (t : ZipTruth) (ws : Toks) : String :=
   | _ => "last_modification shape"
 
 def zipExtraCheck (t : ZipTruth) (x : String) : String :=
-  if t.xt == "~" then (if x == "-" then "" else s!"extra fields {x}, none written")
-  else if x == s!"21589:5:{t.xt}" then "" else s!"extended timestamp {x}, written 21589:5:{t.xt}"
+  -- the writer's own record (unknown tag) first, then the extended timestamp of a streamed member
+  let want := (if t.xraw == "~" then [] else [s!"{t.xraw}:~"]) ++ (if t.xt == "~" then [] else [s!"21589:5:{t.xt}"])
+  let wantS := if want.isEmpty then "-" else ",".intercalate want
+  if x == wantS then "" else s!"extra fields {x.take 60}, written {wantS}"
 
 def zipTruth (seg : Toks) : Option ZipTruth := do
   pure { name := ← kvHex seg "name", method := ← kvNat seg "method", dd := (← kvNat seg "dd") == 1, fcomment := ← kvHexOpt seg "fcomment",
          off := ← kvNat seg "off", data := ← kvHex seg "data", fdate := ← kvNat seg "fdate", ftime := ← kvNat seg "ftime",
          guess := ← kvGet seg "guess", gdesc := ← kvGet seg "gdesc", xt := ← kvGet seg "xt", ext := ← kvGet seg "ext", utf8 := ← kvGet seg "utf8",
-         clen := ← kvNat seg "clen" }
+         clen := ← kvNat seg "clen", xraw := (kvGet seg "xraw").getD "~" }
 
 def zipProp (file : Bytes) (truth : Toks) (ts : List ZipTruth) (obs : Toks) : String :=
   match obs with
@@ -704,6 +709,13 @@ def gifProp0 (truth obs : Toks) : String :=
     let gotXe : List String := (segs.filter (fun (s : String × Toks) => s.1 == "X" && s.2.drop 1 == ["1", "-"])).map (fun (s : String × Toks) => s.2.headD "?")
     if imgs.length != tsegs.length + jsegs.length then s!"PROPFAIL gif: {imgs.length} images, {tsegs.length + jsegs.length} written" else
     if gotXe != wantXe then s!"PROPFAIL gif: extensions without sub-blocks {gotXe}, written {wantXe}" else
+    -- a hand-made comment extension: its data split into 255 byte sub-blocks must come back whole
+    if (match kvGet truth "cmt" with
+        | some "~" => false
+        | some c =>
+          let n := (c.length / 2 + 254) / 255
+          !(segs.any (fun (s : String × Toks) => s.1 == "X" && s.2 == ["254", toString n, c]))
+        | none => false) then "PROPFAIL gif: comment extension data / sub-block count differ from what was written" else
     if (segs.find? (·.1 == "T")).map (·.2) != some ["59"] then "PROPFAIL gif: trailer" else
     -- delays: a graphic control extension (0xf9 = 249) qualifies the next image; none = delay 0
     let rec go (i : Nat) (ts : List (String × Toks)) (bl : List (String × Toks)) (pending : Option (Nat × Nat)) : String :=
@@ -928,7 +940,7 @@ def stepDec (nested : Bool) (format fhex : String) (truth : Toks) (obs : String)
     else if nested && (o.contains "JQERR" || o.head? == some "noline") then
       -- a decode that fails at top level (decode error shown) makes the probe fail when nested: the member stays raw.
       -- The same classes are excused as at top level.
-      if format == "gzip" && truth.any (fun w => w.startsWith "flg=" && w != "flg=0") then
+      if format == "gzip" && truth.any (fun w => w.startsWith "flg=" && w != "flg=0" && w != "flg=24") then
         "KNOWN gzip-flags-bit-order nested member with FLG != 0 is not recognised as gzip"
       else if format == "bzip2" && kvNat truth "blocks" != some 1 then
         "KNOWN bzip2-single-block-only nested stream is not recognised as bzip2"
